@@ -16,7 +16,7 @@ LaneW LaneWProof LaneWStep1 LaneWStep2 LaneWStep3 LaneWStep4 LaneWStep5 LaneWSte
 DataP Base64P AttrP SuspendP SourceP HeapP IoP IoP2 IoP3 \
 GroupP GroupPA GroupPF9 GroupPB GroupPB2 GroupPB3 GroupPC GroupPD HierP HbP \
 LaneF LaneFProof LaneFFifo LaneFFifo2 LaneFFifo3 LaneFFifo4 LaneFFifo5 LaneFFifo6 LaneFFifo7 LaneFFifo8 LaneFFifo9 LaneFFifoMain \
-RefP SrcP BlockP"
+RefP SrcP BlockP CancelP"
 rc=0
 for m in $ORDER; do
   if [ ! -f Spike/$m.lean ]; then echo "MISSING $m"; rc=1; continue; fi
